@@ -153,7 +153,41 @@ def apply_contract(ip, con, f, args, kwargs):
     node = ip.program.node_of(f)
     env = {}
     ip.bind_params(node.args, args, kwargs, env, f.__name__)
+    if not con.frame_only and not in_domain(ip, con, env):
+        # the call is outside the shapes the contract was proved for (a constant parameter with another value, a receiver of
+        # another class): the contract says nothing about it, the body is executed instead
+        ip.assumptions_used.add(f"call of {con.qualname} outside its contract's parameter shapes: body inlined")
+        return ip.call_function(f, args, kwargs, force_inline=True)
     return _apply(ip, con, env, f, args, kwargs)
+
+
+def in_domain(ip, con, env):
+    """Do the actual arguments lie within the parameter shapes of the contract (checked for the shapes that restrict:
+    constants and objects of given classes)?"""
+    from .contracts import Const, Obj, FreshObj
+    members = con.variants or [{}]
+    for pn, actual in env.items():
+        shapes = [dict(con.params, **v).get(pn) for v in members]
+        if not any(isinstance(sh, (Const, Obj, FreshObj)) for sh in shapes):
+            continue
+        ok = False
+        for sh in shapes:
+            if isinstance(sh, Const):
+                if isinstance(actual, C) and (actual.v is sh.value or (type(actual.v) is type(sh.value) and actual.v == sh.value)):
+                    ok = True
+            elif isinstance(sh, (Obj, FreshObj)):
+                cls = ip.program.resolve(sh.cls) if isinstance(sh.cls, str) else sh.cls
+                if isinstance(actual, SObj) and issubclass(actual.cls, cls):
+                    ok = True
+                if isinstance(actual, Z) and getattr(actual, "cls", None) is not None and issubclass(actual.cls, cls):
+                    ok = True
+            else:
+                ok = True          # an unrestricted shape among the members
+            if ok:
+                break
+        if not ok:
+            return False
+    return True
 
 
 def _apply(ip, con, env, f, args, kwargs):
